@@ -1,3 +1,52 @@
-From Coq Require Import Reals List.
-Theorem placeholder : True. Proof. exact I. Qed.
-Print Assumptions placeholder.
+(* C14  WCCN/whitening map covariance to identity; WCCN depends only on the partition. *)
+From Coq Require Import Reals List Permutation.
+From BLE Require Import Num.InstR Model.Linear Proofs.RLemmas Proofs.LinearR.
+Import ListNotations NR.
+Open Scope R_scope.
+
+Theorem C14_whitened_mean_is_zero (D : nat) (X W : list (list R)) : X <> [] -> rows_ok D X -> mat_ok D W ->
+  mean_rows D (project D (mean_rows D X) W X) = V.vzero D.
+Proof. exact (whiten_mean_zero D X W). Qed.
+Print Assumptions C14_whitened_mean_is_zero.
+
+(* under the contracts of the external inverse and lower Cholesky factor *)
+Theorem C14_whitened_covariance_is_identity (inv chol : list (list R) -> list (list R)) (D : nat) (X : list (list R)) :
+  (2 <= length X)%nat -> rows_ok D X ->
+  inv_ok D (cov D X) (inv (cov D X)) -> chol_ok D (inv (cov D X)) (chol (inv (cov D X))) ->
+  let '(mu, W) := whiten_fit inv chol D X in
+  cov D (project D mu W X) = V.eye D.
+Proof. exact (whiten_cov_identity inv chol D X). Qed.
+Print Assumptions C14_whitened_covariance_is_identity.
+
+Theorem C14_wccn_within_scatter_over_K_is_identity (inv chol : list (list R) -> list (list R)) (D : nat) (cl : list (list (list R))) :
+  cl <> [] -> Forall (fun Xk => Xk <> [] /\ rows_ok D Xk) cl ->
+  let Sw := V.mscale (1 / INR (length cl)) (within_scatter D cl) in
+  inv_ok D Sw (inv Sw) -> chol_ok D (inv Sw) (chol (inv Sw)) ->
+  V.mscale (1 / INR (length cl)) (within_scatter D (wccn_apply D (wccn_fit inv chol D cl) cl)) = V.eye D.
+Proof. exact (wccn_scatter_identity inv chol D cl). Qed.
+Print Assumptions C14_wccn_within_scatter_over_K_is_identity.
+
+(* core algebra behind both: with M the inverse of C and L the lower Cholesky factor of M, L^T C L = I *)
+Theorem C14_Lt_C_L_is_identity (D : nat) (Cm M L : list (list R)) :
+  mat_ok D Cm -> inv_ok D Cm M -> chol_ok D M L -> mmul D (mT D L) (mmul D Cm L) = V.eye D.
+Proof. exact (Lt_C_L_identity D Cm M L). Qed.
+Print Assumptions C14_Lt_C_L_is_identity.
+
+(* the projection depends only on which samples share a class: not on the order in which the label set is
+   enumerated, not on the order of the samples, not on the label values *)
+Theorem C14_wccn_depends_only_on_partition (inv chol : list (list R) -> list (list R)) (D : nat) (cl cl' cl'' : list (list (list R))) :
+  Forall (rows_ok D) cl -> Permutation cl cl' -> Forall2 (@Permutation (list R)) cl' cl'' ->
+  wccn_fit inv chol D cl = wccn_fit inv chol D cl''.
+Proof. exact (wccn_partition_only inv chol D cl cl' cl''). Qed.
+Print Assumptions C14_wccn_depends_only_on_partition.
+
+Theorem C14_label_values_do_not_matter {A} (f : nat -> nat) (order y : list nat) (X : list A) :
+  (forall a b, In a (order ++ y) -> In b (order ++ y) -> f a = f b -> a = b) ->
+  group (map f order) (map f y) X = group order y X.
+Proof. exact (group_relabel f order y X). Qed.
+Print Assumptions C14_label_values_do_not_matter.
+
+Theorem C14_label_enumeration_order_permutes_groups {A} (order order' y : list nat) (X : list A) :
+  Permutation order order' -> Permutation (group order y X) (group order' y X).
+Proof. exact (group_order_perm order order' y X). Qed.
+Print Assumptions C14_label_enumeration_order_permutes_groups.
